@@ -8,6 +8,12 @@ TB = ("Coq 8.16.1 kernel + vm_compute; no axioms declared (Print Assumptions per
       "of the model on the same generated inputs) and, where listed, by the py2coq translator with a re-proved Gen = Model; "
       "Python harness, generators and spec oracles are trusted; see DESIGN.md section 8")
 CLAIMS = {
+ "C05": dict(design="6/C05", technique="Coq proof (dispatch classified for every tree/validator/handler; refused => state unchanged) + live-tree correspondence + permission-table and state-diff search",
+   text="coq/Props/C05.v proves, for every request tree, validator, handler and state of the model of RequestManager.__call__, that every answer is classified (unreachable / failure by the first false validator / the handler's answer), that a request which does not reach a handler returns the state unchanged and is never success, and that a reaching request is handed to the handler. The model is tied to core.py on every run by executing requests (every action type x every component, existing and missing, plus missing/misspelt/truncated path mutations) on live trees at disrupted states and comparing with vm_compute of the model on the dumped path subtree; the search also compares uuid-normalised describe_state before/after refused requests and checks the documented permission table on ground-truth objects."),
+ "C11": dict(design="6/C11", technique="Coq proof (check_valid = true <-> reaches handler, corollaries) + per-step all-entries mask vs independent tree walk vs documented table vs execution",
+   text="coq/Props/C11.v proves, for every tree and state of the model of RequestManager.check_valid, that the mask predicate is true exactly when dispatch would reach the handler, hence masked-out never succeeds and allowed is never refused by a validator. Tied to the code by correspondence on executed entries and, at every step, by comparing every entry of a widened action map (whole action space, existing and missing components) with an independent walk of the live tree, with the documented masking table evaluated on simulator objects, and with the outcome of executing one entry per step (validator probe reveals refusals below the registered leaf)."),
+ "C18": dict(design="6/C18", technique="Coq proof (invariant 0 <= carried = load <= bandwidth by nested induction over transmission call trees) + call-tree correspondence + independent carried-data tally",
+   text="coq/Props/C18.v proves for every list of transmission call trees in a tick (requests with nested replies, floods, bursts; any sizes with add <= chk) that the link load equals the data carried and never exceeds the bandwidth, that loads start at zero, that a down link carries nothing and an overflowing frame is dropped at the sender; a refutation theorem records that add-after-delivery accounting breaks it. Tied to Link/AirSpace by wrappers that record the real call trees per link per tick (tight bandwidths from half a frame up, wireless channel of one frame) and compare loads with vm_compute of the model; an independent tally of delivered bytes is checked against the bandwidth after every attempt."),
  "C07": dict(design="6/C07", technique="Coq proof (first-match scan, wildcard bit lemma, frame lemmas, reachable-state invariant) + translator/correspondence tie + spec-oracle search",
    text="Theorems in coq/Props/C07.v prove, for every rule list, packet and op sequence of the model, that the verdict is that of the lowest-positioned rule whose specified fields all match (wildcards bitwise), else the implicit action; that exactly the deciding counter is incremented; that add/remove touch only the addressed slot. The model is tied to router.py by correspondence through the Python API, the agent-action request path and scenario loading on every run, and an independent spec oracle searches for concrete failing inputs."),
 }
